@@ -876,7 +876,27 @@ def run_unit(u, ctx):
 def run_case(ctx, root, case):
     # judge() expects the operation history under 'ops'
     jcase = dict(case, ops=case['history'])
-    judge_wrapper(ctx, root, jcase, case)
+    # the link into the other file system leads to a directory of this case's own:
+    # /dev/shm itself is shared with whatever else runs on the machine (a whole-tree
+    # CLI update would walk, and rewrite, the Manifests other processes keep there)
+    import shutil
+    import tempfile
+    private = []
+    for o in case.get('ops', []):
+        if o.get('op') == 'symlink' and o.get('to') == '/dev/shm':
+            link = os.path.join(root, o['p'])
+            if os.path.islink(link):
+                priv = tempfile.mkdtemp(prefix='vf-c10x-', dir='/dev/shm')
+                with open(os.path.join(priv, 'foreign'), 'w') as f:
+                    f.write('on the other file system')
+                os.unlink(link)
+                os.symlink(priv, link)
+                private.append(priv)
+    try:
+        judge_wrapper(ctx, root, jcase, case)
+    finally:
+        for priv in private:
+            shutil.rmtree(priv, ignore_errors=True)
 
 
 def judge_wrapper(ctx, root, jcase, case):
